@@ -121,6 +121,14 @@ where
     ) -> Result<(), <Self::Link as LinkDetach>::DetachError>;
 }
 
+/// The result of a non-closing detach that the peer answered with a closing detach
+fn closed_by_remote(remote_error: Option<definitions::Error>) -> DetachError {
+    match remote_error {
+        Some(error) => DetachError::RemoteClosedWithError(error),
+        None => DetachError::ClosedByRemote,
+    }
+}
+
 impl<T> LinkEndpointInnerDetach for T
 where
     T: LinkEndpointInner + LinkEndpointInnerReattach + Send + Sync,
@@ -148,13 +156,16 @@ where
                     // sending a non-closing detach. In this case, the partner MUST
                     // signal that it has closed the link by reattaching and then sending
                     // a closing detach.
+                    let remote_error = remote_detach.error;
                     reattach_and_then_close(self).await?;
 
                     // A peer closes a link by sending the detach frame with the handle for the
                     // specified link, and the closed flag set to true. The partner will destroy
                     // the corresponding link endpoint, and reply with its own detach frame with
                     // the closed flag set to true.
-                    Err(DetachError::ClosedByRemote)
+                    //
+                    // An error carried by the peer's closing detach is what the caller gets
+                    Err(closed_by_remote(remote_error))
                 } else {
                     self.link_mut().on_incoming_detach(remote_detach)
                 }
@@ -162,8 +173,9 @@ where
             LinkState::DetachSent => {
                 let remote_detach = recv_remote_detach(self).await?;
                 if remote_detach.closed {
+                    let remote_error = remote_detach.error;
                     reattach_and_then_close(self).await?;
-                    Err(DetachError::ClosedByRemote)
+                    Err(closed_by_remote(remote_error))
                 } else {
                     self.link_mut().on_incoming_detach(remote_detach)
                 }
